@@ -349,3 +349,51 @@ func FirstRastDiffExact(a, b []RastOp) int {
 	}
 	return -1
 }
+
+// TameRaster stands between the Renderer and the real raster/vec back end
+// and keeps golang.org/x/image/vector away from coordinates it cannot
+// handle: it panics (integer divide by zero) or needs minutes on segments
+// that are billions of pixels long, which even moderate drawing coordinates
+// produce through chains of smooth curves (each implicit control point is a
+// reflection of the previous one, so their magnitude can double per step).
+// Once a coordinate beyond +-Limit (or a NaN) is seen, the segment and
+// everything after it is withheld and Bad is set; what was withheld is still
+// hashed, so two arms that are fed the same calls stay comparable.
+type TameRaster struct {
+	raster.Rasterizer
+	Limit float32
+	Bad   bool
+	Hash  uint64
+}
+
+func (z *TameRaster) ok(k RKind, f ...float32) bool {
+	z.Hash = z.Hash*1099511628211 ^ uint64(k)
+	for _, x := range f {
+		z.Hash = z.Hash*1099511628211 ^ uint64(math.Float32bits(x))
+		if !(x >= -z.Limit && x <= z.Limit) {
+			z.Bad = true
+		}
+	}
+	return !z.Bad
+}
+
+func (z *TameRaster) MoveTo(ax, ay float32) {
+	if z.ok(RMoveTo, ax, ay) {
+		z.Rasterizer.MoveTo(ax, ay)
+	}
+}
+func (z *TameRaster) LineTo(bx, by float32) {
+	if z.ok(RLineTo, bx, by) {
+		z.Rasterizer.LineTo(bx, by)
+	}
+}
+func (z *TameRaster) QuadTo(bx, by, cx, cy float32) {
+	if z.ok(RQuadTo, bx, by, cx, cy) {
+		z.Rasterizer.QuadTo(bx, by, cx, cy)
+	}
+}
+func (z *TameRaster) CubeTo(bx, by, cx, cy, dx, dy float32) {
+	if z.ok(RCubeTo, bx, by, cx, cy, dx, dy) {
+		z.Rasterizer.CubeTo(bx, by, cx, cy, dx, dy)
+	}
+}
